@@ -11,6 +11,7 @@ NOT_DECIDED = [
     "semantics of str::split(',') / find / rfind (std)",
 ]
 CONFIG_SENSITIVE = False
+DESUGAR = True
 
 AM = "pattern::Pattern::alternate_match"
 NEW = "pattern::Pattern::new"
